@@ -17,9 +17,14 @@
               set ignoreEmbeddedMethodsNamed), go/types method-set
               filter on the merged methods
 
+              named interfaces: go/types' Interface.Method(i), the     iface_methods (itree), flatten (stree)
+              type set of the declaration (a set union)
+   imports.go unusedName (fresh name for an on-demand import)          unused_name, taken_names (in add_named)
+
    The pinned (pre-fix) code is kept as  get_safe_param_name_orig / ensure_names_orig /
-   ensure_param_names_orig  (params.go, method.go) and  to_iface_orig  (interface.go, no
-   method-set filter).
+   ensure_param_names_orig  (params.go, method.go),  to_iface_orig  (interface.go, no
+   method-set filter) and, for imports.go before fixes/C19-import-alias-collision.patch, the
+   environment switch  e_unique_alias = false.
 
    Conventions.  Identifiers and rendered text are Coq [string]s (bytes).  The Go map
    paramDeduper is an association list keyed by name.  ih.imports is an association list
@@ -291,8 +296,12 @@ Definition import_string (i : imp) : string :=
   if i_alias_is_pkg i then """" ++ i_path i ++ """"
   else i_alias i ++ " """ ++ i_path i ++ """".
 
-(* the package being generated for: its path, and packages.Package.Imports (path -> name) *)
-Record env := Env { e_self : string; e_pkg_imports : list (string * string) }.
+(* the package being generated for: its path, packages.Package.Imports (path -> name), the
+   package-level names of its scope (PInfo.Types.Scope()), and a version switch:
+   e_unique_alias = true is the current code (fixes/C19-import-alias-collision.patch: an import
+   added on demand gets a name that is not bound yet), false the code before it *)
+Record env := Env { e_self : string; e_pkg_imports : list (string * string);
+                    e_locals : list string; e_unique_alias : bool }.
 Fixpoint assoc (l : list (string * string)) (k : string) : option string :=
   match l with
   | [] => None
@@ -312,6 +321,30 @@ Definition calc_import (e : env) (spec : string * option string) : imp :=
 Definition calc_imports (e : env) (specs : list (string * option string)) : table :=
   fold_left (fun t s => tset t (calc_import e s)) specs [].
 
+(* the name an import spec binds in the file (what the Go compiler sees): the rename, else the
+   package name go/packages reports for the path *)
+Definition spec_name (e : env) (spec : string * option string) : string := i_alias (calc_import e spec).
+
+(* what the Go compiler guarantees of the file the handler is built from (a predicate on the
+   INPUT): the specs bind pairwise distinct names, none of them a package-level name of the
+   package, `_` or `.`; and (a simplification: Go allows importing one path twice under two
+   names) name pairwise distinct paths *)
+Definition specs_okb (e : env) (specs : list (string * option string)) : bool :=
+  nodupb (map fst specs) && nodupb (map (spec_name e) specs) &&
+  forallb (fun s => negb (mem (spec_name e s) (e_locals e)) &&
+                    negb (String.eqb (spec_name e s) "_") && negb (String.eqb (spec_name e s) "."))
+          specs.
+
+(* ImportHandler.unusedName: name, or name followed by the first number from 2 on with which it
+   is not among the taken names (the import names the handler knows and the package-level names).
+   The loop `for n := 2; bound(result); n++ { result = name + Itoa(n) }` is number_name over the
+   taken names as keys (same fuel argument: IFaceNamesProofs.number_name_fresh) *)
+Definition taken_names (e : env) (st : table) : list string := (map i_alias st ++ e_locals e)%list.
+Definition unused_name (taken : list string) (name : string) : string :=
+  if mem name taken
+  then fst (number_name (S (List.length taken)) (map (fun a => (a, 0%N)) taken) name 2)
+  else name.
+
 (* addNamed, import part: the qualifier to print and the new table *)
 Definition add_named (e : env) (st : table) (pkg : option (string * string))
   : option string * table :=
@@ -322,11 +355,13 @@ Definition add_named (e : env) (st : table) (pkg : option (string * string))
       else match tget st path with
            | Some i => (Some (i_alias i), tset st (Imp path (i_alias i) (i_alias_is_pkg i) true))
            | None =>
-               let '(al, isp) :=
+               let '(al0, isp0) :=
                  match assoc (e_pkg_imports e) path with
                  | Some n => if String.eqb pname "" then (n, true) else (pname, has_suffix path pname)
                  | None => (pname, has_suffix path pname)
                  end in
+               let al := if e_unique_alias e then unused_name (taken_names e st) al0 else al0 in
+               let isp := if String.eqb al al0 then isp0 else false in
                (Some al, tset st (Imp path al isp true))
            end
   end.
@@ -569,6 +604,63 @@ Fixpoint ms_level (fuel : nat) (lvl : list tree) (n : string) : bool :=
   | _ => false
   end.
 Definition go_ms (t : tree) (n : string) : bool := ms_level (height t) [t] n.
+
+(* ---- named interface types: the method set of an interface is a SET ----
+   namedTypeToInterface lists a named interface through go/types' Interface.Method(i),
+   the type set go/types computes for the declaration: the explicitly declared methods, then, in
+   the order of the embedded interfaces, the methods of each embedded interface that are not
+   there yet BY NAME (Go demands identical signatures for such duplicates and keeps the first —
+   typeset.go computeInterfaceTypeSet/addMethod).  [itree] is the declaration as written
+   (explicit methods, embedded named interfaces, recursively), [iface_methods] that set; the
+   order go/types finally sorts it in is not modelled (every statement and every comparison of
+   the judge is by name).  The correspondence run compares [iface_methods] with go/types'
+   Method(i) list — names and full signatures — on every interface of every case.           *)
+Inductive itree := IT (self : ty) (explicit : list meth) (embedded : list itree).
+Definition it_self (i : itree) := match i with IT s _ _ => s end.
+Definition it_explicit (i : itree) := match i with IT _ x _ => x end.
+Definition it_emb (i : itree) := match i with IT _ _ e => e end.
+
+Definition has_name (acc : list meth) (n : string) : bool :=
+  existsb (fun x => String.eqb (m_name x) n) acc.
+Definition union_add (acc ms : list meth) : list meth :=
+  fold_left (fun acc m => if has_name acc (m_name m) then acc else (acc ++ [m])%list) ms acc.
+
+Fixpoint iface_methods (i : itree) : list meth :=
+  match i with
+  | IT _ ex embs => fold_left (fun acc f => union_add acc (iface_methods f)) embs (union_add [] ex)
+  end.
+
+(* every declaration below an interface, and their names *)
+Fixpoint all_decls (i : itree) : list meth :=
+  match i with IT _ ex embs => (ex ++ flat_map all_decls embs)%list end.
+Definition decl_names (i : itree) : list string := map m_name (all_decls i).
+
+(* the collection of seeded change C19-21 (kept as a record of what the set semantics excludes):
+   explicit methods, then everything inherited that is not EXPLICITLY declared — a method two
+   embedded interfaces share is listed twice *)
+Fixpoint iface_methods_concat (i : itree) : list meth :=
+  match i with
+  | IT _ ex embs =>
+      (ex ++ filter (fun m => negb (has_name ex (m_name m))) (flat_map iface_methods_concat embs))%list
+  end.
+
+(* the source of an embedding tree: struct (or other defined) types with their selectors and
+   embedded fields; named interface types as declared *)
+Inductive stree :=
+| SStruct (self : ty) (own : list meth) (embedded : list stree)
+| SIface (i : itree).
+
+(* what namedTypeToInterface sees through go/types *)
+Fixpoint flatten (s : stree) : tree :=
+  match s with
+  | SStruct self own embs => Tr self own (map flatten embs)
+  | SIface i => Tr (it_self i) (iface_methods i) []
+  end.
+Fixpoint flatten_concat (s : stree) : tree :=
+  match s with
+  | SStruct self own embs => Tr self own (map flatten_concat embs)
+  | SIface i => Tr (it_self i) (iface_methods_concat i) []
+  end.
 
 (* a rendered method: name, inputs, outputs *)
 Record rmeth := RM { rm_name : string; rm_in : list (string * bool * texpr);
